@@ -682,6 +682,16 @@ func (h *hist) block() bool {
 	epochBlockPre := h.ref.n.App.State.EpochBlock()
 	pre := h.prevLed
 	empty := noProposer || (h.cfg.graph == nil && !h.cfg.relQuiet && h.rnd.Intn(9) == 0)
+	if h.cfg.heavy && !empty && h.cfg.graph == nil && !h.cfg.relQuiet {
+		// an EMPTY block changes the identity state too when it lands on a switch boundary with something pending (status,
+		// delegation, discrimination switches, delayed penalties): every second such boundary gets no proposal
+		st, c := h.ref.n.App.State, h.w.Cons
+		boundary := height%uint64(c.StatusSwitchRange) == 0 || height%uint64(c.DelegationSwitchRange) == 0 || height%uint64(c.DiscriminationSwitchRange) == 0
+		pending := len(st.StatusSwitchAddresses()) > 0 || len(st.Delegations()) > 0 || len(st.DiscriminationStatusSwitchAddresses()) > 0 || len(st.DelayedOfflinePenalties()) > 0
+		if boundary && pending && h.rnd.Intn(2) == 0 {
+			empty = true
+		}
+	}
 	if st := h.ref.n.App.State; st.ValidationPeriod() == state.AfterLongSessionPeriod && st.CanCompleteEpoch() {
 		// the coming block finishes the validation: the per-identity results (a stand-in for the
 		// answers recorded in blocks) are handed to every replica's ceremony before anybody evaluates
